@@ -95,17 +95,10 @@ def scratch_copy() -> str:
 def run_variant(v: dict) -> dict:
     d = scratch_copy()
     try:
-        if v.get('transform') == 'unparse-all':
-            # behaviour-preserving rewrite of the whole Python side: normalised formatting, comments stripped
-            import ast as _ast
-            for root, _dirs, files in os.walk(os.path.join(d, 'generation')):
-                for fn in files:
-                    if fn.endswith('.py'):
-                        fp = os.path.join(root, fn)
-                        with open(fp, encoding='utf-8') as f:
-                            src = f.read()
-                        with open(fp, 'w', encoding='utf-8') as f:
-                            f.write(_ast.unparse(_ast.parse(src)) + '\n')
+        if v.get('transform'):
+            # behaviour-preserving rewrite of the whole Python side (selftest/transforms.py)
+            from . import transforms
+            transforms.apply(v['transform'], d)
         if v.get('patch'):
             chk = subprocess.run(['patch', '-p1', '-s', '-f', '--dry-run', '-d', d, '-i', v['patch']], capture_output=True, text=True)
             touched = [l[6:].split()[0] for l in open(v['patch'], encoding='utf-8') if l.startswith('+++ b/')]
